@@ -490,10 +490,10 @@ func (x *Explorer) ConfirmExact(target *E1State, opts ConfirmOpts) *Confirmation
 			push(&pnode{store: r.succ, queues: q, env: env, parent: n, via: tr, depth: n.depth + 1, prio: d*100 + qlen(q)*2 + n.depth/4, held: heldMoves})
 		}
 		// split steps: the held call may continue now; nothing else moves once HoldDepth is used up
-		heldCtrl := ""
+		heldCtrl, heldID := "", ""
 		if n.env.Held != "" {
 			hc, hid, hk := heldParts(n.env.Held)
-			heldCtrl = hc
+			heldCtrl, heldID = hc, hid
 			var begin uint64
 			fmt.Sscanf(n.env.Held[strings.LastIndex(n.env.Held, "|")+1:], "%x", &begin)
 			if r := xs.actRelease(begin, n.env, hc, hid, hk, n.held); r.ok {
@@ -554,8 +554,8 @@ func (x *Explorer) ConfirmExact(target *E1State, opts ConfirmOpts) *Confirmation
 				}
 				seen[it] = true
 				ctrl, id := splitItem(it)
-				if ctrl == heldCtrl {
-					break // the held call's controller runs nothing else
+				if heldBlocks(x.W, heldCtrl, heldID, ctrl, id) {
+					break // the held call's partition runs nothing else (and what queues behind this token waits too)
 				}
 				tr := Trans{Kind: "step", Ctrl: ctrl, ID: id, Src: src}
 				r := xs.act(n.store, n.env, tr)
